@@ -37,8 +37,8 @@ CHECKS = {
         "assumptions": ["representation invariant of verifArbitraryBuffer"],
     },
     "C03": {
-        "explanation": "DefaultCleaner for every size >= 0 and <= 6 offsets over all 64-bit ints; FixedBufferCleaner for all 64-bit max/target/size; cleanupLogic from arbitrary states under the default, fixed and an arbitrary cleaner; Slice/Size/Diff observers.",
-        "quick": [seq("Harness_C03_default_cleaner"), seq("Harness_C03_cleanup_default"), seq("Harness_C03_cleanup_arbitrary"), seq("Harness_C03_fixed_cleaner"), seq("Harness_C03_fixed_step"), seq("Harness_C03_observers")],
+        "explanation": "DefaultCleaner for every size >= 0 and <= 6 offsets over all 64-bit ints; FixedBufferCleaner for all 64-bit max/target/size; cleanupLogic from arbitrary states under the default, fixed and an arbitrary cleaner; Slice/Size/Diff observers; one cleaner run with a slow custom callback racing NewConsumer under every interleaving (T=14): decision and eviction are one critical section.",
+        "quick": [seq("Harness_C03_default_cleaner"), seq("Harness_C03_cleanup_default"), seq("Harness_C03_cleanup_arbitrary"), seq("Harness_C03_fixed_cleaner"), seq("Harness_C03_fixed_step"), seq("Harness_C03_observers"), sched("Harness_C03_cleanup_vs_newconsumer", 14)],
         "thorough": [seq("Harness_C03_cleanup_default", define=D6, timeout_ms=600000), seq("Harness_C03_cleanup_arbitrary", define=D6, timeout_ms=600000), seq("Harness_C03_fixed_step", define=D6), seq("Harness_C03_observers", define=D6)],
         "assumptions": ["at most 6 consumer offsets for the pure cleaner, <= 2 consumers and <= 4 values for cleanupLogic"],
     },
@@ -94,9 +94,9 @@ CHECKS = {
         "assumptions": ["reflect.Value.TryRecv/Interface are contract stubs", "polling path (nothing available) is outside the sequential steps"],
     },
     "C14": {
-        "explanation": "Workers: one worker body run from an arbitrary valid state (queue <= 2, any count/target): FIFO exactly-once execution, reply delivery and exit accounting; one Call racing its worker under every interleaving (T=12).",
+        "explanation": "Workers: one worker body run from an arbitrary valid state (queue <= 2, any count/target): FIFO exactly-once execution, reply delivery and exit accounting; one Call racing its worker under every interleaving (T=12); Wait re-checks after a wake-up. Thorough: a Call racing a worker that is about to exit on an empty queue (T=18: the queued function is never left without a worker), and one Call with count 2 (T=18).",
         "quick": [seq("Harness_C14_worker_drain"), sched("Harness_C14_call_single_1", 12, unwind_fn="Call=1,worker=1", timeout_ms=300000), sched("Harness_C14_wait_recheck", 12)],
-        "thorough": [],
+        "thorough": [sched("Harness_C14_worker_exit_vs_call", 18, unwind_fn="Call=1,worker=2", timeout_ms=400000), sched("Harness_C14_call_single_2", 18, unwind_fn="Call=2,worker=1", timeout_ms=400000)],
         "assumptions": ["two or more concurrent callers under full interleaving are outside the encoder's reach"],
     },
     "C16": {
@@ -125,10 +125,11 @@ CHECKS = {
         "assumptions": ["fairness: at most 2 failed non-blocking sends in total", "time is an arbitrary non-decreasing clock"],
     },
     "C19": {
-        "explanation": "Callable, validation layer: CallArgs / CallResults / CallResultsSlice run against 6 function signatures (nullary, variadic, pointer/interface/map/slice parameters, multiple results) with <= 3 arguments or result targets drawn symbolically from a pool of 12 kinds of value (untyped nil, typed nil pointer, wrong kinds, pointers to variables of several types): never panic, build their thunk exactly when they report no error, and accept exactly what a direct call / direct assignment accepts (hand-written assignability table as independent oracle); callable.Call rejects non-function, nil-function and mandatory-input thunks without invoking anything.",
-        "quick": [seq("Harness_C19_callargs_validation"), seq("Harness_C19_callresults_validation"), seq("Harness_C19_callresultsslice_validation"), seq("Harness_C19_call_thunk_checks")],
+        "explanation": "Callable, everything except reflect.Value.Call on the user's function: CallArgs / CallResults / CallResultsSlice run against 6 function signatures (nullary, variadic, pointer/interface/map/slice parameters, multiple results) with <= 3 arguments or result targets drawn symbolically from a pool of 12 kinds of value (untyped nil, typed nil pointer, wrong kinds, pointers to variables of several types): never panic, build their thunk exactly when they report no error, and accept exactly what a direct call / direct assignment accepts (hand-written assignability table as independent oracle); the arguments thunk yields exactly the given arguments (zero values stay themselves, untyped nil becomes the parameter type's nil) and the results thunk stores exactly the returned values through the given targets; callable.Call rejects non-function, nil-function and mandatory-input thunks without invoking anything.",
+        "quick": [seq("Harness_C19_callargs_validation"), seq("Harness_C19_callresults_validation"), seq("Harness_C19_callresultsslice_validation"), seq("Harness_C19_call_thunk_checks"), seq("Harness_C19_callargs_thunk"), seq("Harness_C19_callresults_thunk")],
         "thorough": [],
-        "assumptions": ["reflect.TypeOf / Type.{NumIn,In,NumOut,Out,IsVariadic,Elem,Kind,AssignableTo} / ValueOf / Value.{Type,Kind,IsNil,Elem} are contract stubs answered by go/types", "reflect.FuncOf and reflect.MakeFunc are opaque: the thunks' bodies, reflect.Value.Call and therefore 'invokes exactly once with exactly these arguments and stores exactly the returned values' are outside the claim",
+        "assumptions": ["reflect.TypeOf / Type.{NumIn,In,NumOut,Out,IsVariadic,Elem,Kind,AssignableTo} / ValueOf / New / Value.{Type,Kind,IsNil,IsZero,Elem,Set,Interface} are contract stubs answered by go/types; Value.Call is modelled only for functions made by reflect.MakeFunc (it runs the function given to MakeFunc on the argument Values)",
+                        "reflect.FuncOf yields a placeholder type; reflect.Value.Call on the user's own function (x.callableValue.Call) and reflect.Append (CallResultsSlice's thunk) are not modelled, so 'invokes the function exactly once' and the slice variant's stores are outside the claim",
                         "6 signatures, 12 value kinds, <= 3 arguments/targets"],
     },
     "C11": {
